@@ -1,5 +1,8 @@
 """Registry: property -> Lean modules, theorems, stages."""
 import stage_disc
+import stage_doc
+import stage_e2e
+import stage_gen
 import stage_names
 import stage_types
 
@@ -11,6 +14,20 @@ PROPS = {
                      "StubGen.C09.recover_eq", "StubGen.C09.recover_flag_independent", "StubGen.C09.no_annotation_off",
                      "StubGen.Tables.name_annotation_form"],
         "stages": [stage_names.run],
+    },
+    "C13": {
+        "modules": ["StubGen.Theorems.C13"],
+        "theorems": ["StubGen.C13.valid_empty", "StubGen.C13.getCached_ok", "StubGen.C13.getCached_error",
+                     "StubGen.C13.getCached_total", "StubGen.C13.getCached_transparent",
+                     "StubGen.C13.getClassDocumentation_cache_irrelevant", "StubGen.C13.getFunctionDocumentation_cache_irrelevant",
+                     "StubGen.C13.getParameterDocumentation_cache_irrelevant", "StubGen.C13.getAttributeDocumentation_cache_irrelevant",
+                     "StubGen.C13.getResultDocumentation_cache_irrelevant", "StubGen.C13.queries_eq_cacheless_spec",
+                     "StubGen.C13.cache_transparent", "StubGen.C13.runAll_eq_spec", "StubGen.C13.answer_independent_of_history",
+                     "StubGen.C13.order_irrelevant", "StubGen.C13.descriptionPart_lines", "StubGen.C13.descriptionPart_line_for_line",
+                     "StubGen.C13.sdsDocstringDescription_form", "StubGen.C13.sdsDocstring_blocks", "StubGen.C13.sdsDocstring_empty_iff",
+                     "StubGen.C13.resultDocLines_spec", "StubGen.C13.exampleText_lines", "StubGen.C13.attached_to_own_element",
+                     "StubGen.C13.attached_to_own_class", "StubGen.C13.attached_to_own_attribute"],
+        "stages": [stage_doc.run, stage_gen.run, stage_e2e.run],
     },
     "C15": {
         "modules": ["StubGen.Theorems.C15", "StubGen.Theorems.Tables"],
